@@ -216,3 +216,39 @@ func verifC20Reach() {
 	verifObserve("trie", k1[0], k1[1], k2[0], v, ok, buf.Len())
 	verifAssert(k1[0] != 'a', "reach")
 }
+
+// a node with many children: n keys "id-<b>" with n distinct last bytes (n around the 64-bit word
+// boundaries of the label / has-child bit vectors: the total label count a multiple of 64 or not, the
+// last node wider than a word), serialised and loaded; an arbitrary probe "id-<p>": lookup finds it
+// exactly when p is one of the bytes, with its value; prefix enumeration of "id-" yields all n keys.
+func verifC20WideNode() {
+	n := []int{63, 64, 65, 124, 125, 128, 129, 188, 189, 192}[verifChoose("keys", 10)]
+	keys := make([][]byte, n)
+	vals := make([]uint32, n)
+	for i := 0; i < n; i++ {
+		keys[i] = []byte{'i', 'd', '-', byte(i + 1)}
+		vals[i] = uint32(1000 + i)
+	}
+	b := NewBuilder()
+	b.Build(keys, vals)
+	var buf bytes.Buffer
+	verifAssert(b.Write(&buf) == nil, "write succeeds")
+	tr := NewTrie()
+	verifAssert(tr.UnmarshalBinary(buf.Bytes()) == nil, "a written dictionary loads again")
+	p := verifNondetByte("probeByte")
+	got, ok := tr.Get([]byte{'i', 'd', '-', p})
+	present := p >= 1 && int(p) <= n
+	verifAssert(ok == present, "lookup finds exactly the keys of the dictionary")
+	if ok && present {
+		verifAssert(got == 1000+uint32(p)-1, "lookup returns the key's value")
+	}
+	it := tr.NewPrefixIterator([]byte("id-"))
+	cnt := 0
+	for it.Valid() && cnt <= n {
+		verifAssert(cnt < n && verifEq(it.Key(), keys[cnt]) && it.Value() == vals[cnt], "prefix enumeration yields exactly the keys with the prefix, in order")
+		cnt++
+		it.Next()
+	}
+	verifAssert(cnt == n, "prefix enumeration is complete")
+	verifReach("end")
+}
